@@ -547,9 +547,21 @@ func (n *negation) Parse(ctx *parseContext, parent reflect.Value) (out []reflect
 func conform(t reflect.Type, values []reflect.Value) (out []reflect.Value, err error) {
 	for _, v := range values {
 		for t != v.Type() && t.Kind() == reflect.Ptr && v.Kind() != reflect.Ptr {
-			// This can occur during partial failure.
 			if !v.CanAddr() {
-				return
+				if v.Kind() != reflect.String {
+					return // This can occur during partial failure.
+				}
+				// Captured text for a pointer-typed target: conform it to what the pointer points to, and point at that.
+				elem, cerr := conform(t.Elem(), []reflect.Value{v})
+				if cerr != nil {
+					return nil, cerr
+				}
+				if len(elem) != 1 {
+					return nil, nil
+				}
+				v = reflect.New(t.Elem())
+				v.Elem().Set(elem[0])
+				break
 			}
 			v = v.Addr()
 		}
